@@ -453,7 +453,10 @@ class Network(Cached):
 
         #  Create sparse adjacency matrix from edge list
         sp_A = sp.coo_matrix(
-            (np.ones_like(edges.T[0]), tuple(edges.T)), shape=(N, N))
+            (np.ones_like(edges.T[0]), tuple(edges.T)), shape=(N, N)).tocsc()
+        #  An edge listed repeatedly (e.g., in both orientations for an
+        #  undirected network, as returned by edge_list()) is a single link
+        sp_A.data[:] = 1
 
         #  Set sparse adjacency matrix
         self.adjacency = sp_A
